@@ -4,7 +4,7 @@
 From Coq Require Import Arith NArith ZArith List Bool.
 From Verif Require Import Base.Bytes Base.Hash Model.Merkle Model.MerkleSpec Model.TreeStore Model.BridgeStore
   Proofs.Frontier Proofs.Rht Proofs.InitCache Proofs.C01Proofs Proofs.BridgeStoreProofs
-  Proofs.TreeStoreProofs Proofs.TreeStoreCorollaries Proofs.BridgeReach.
+  Proofs.TreeStoreProofs Proofs.TreeStoreCorollaries Proofs.BridgeReach Proofs.BridgeAsIf.
 Import ListNotations.
 Local Close Scope N_scope.
 
@@ -134,7 +134,30 @@ Theorem C07_processor_retry_is_clean : forall st1 st2, BReach HT node zhf leafh 
 Proof. exact (processor_same_history_same_answers HT node node_inj zhf Hzh leafh Hleaf). Qed.
 End Processor.
 
+
+(* ================= database level =================
+   `BRun HT node zhf leafh ks st`: st was reached by ProcessBlock (under any storage fault), Reorg and restart, and ks are the
+   blocks that were processed successfully and not reorged away since. *)
+Section Tables.
+Variable HT : nat.
+Variable node : N -> N -> N.
+Variable zhf : nat -> N.
+Variable leafh : bridge_ev -> N.
+(* C07 for the tables: two states with the same surviving history hold identical tables, whatever failed and was retried on
+   the way (a failed ProcessBlock contributes nothing: BRun_fail keeps ks); together with C07_processor_retry_is_clean
+   (equal bridge tables => equal exit-tree answers) the retried node is indistinguishable from the one that never failed *)
+Theorem C07_same_history_same_tables : forall ks st1 st2, BRun HT node zhf leafh ks st1 -> BRun HT node zhf leafh ks st2 ->
+  d_blocks (st_db st1) = d_blocks (st_db st2) /\ d_bridges (st_db st1) = d_bridges (st_db st2) /\
+  d_claims (st_db st1) = d_claims (st_db st2) /\ d_tm (st_db st1) = d_tm (st_db st2) /\ d_legacy (st_db st1) = d_legacy (st_db st2).
+Proof. exact (same_history_same_tables HT node zhf leafh). Qed.
+(* no later block is recorded while an earlier one is missing: the block table is exactly the surviving successful blocks, in order *)
+Theorem C07_block_table_is_successful_blocks : forall ks st, BRun HT node zhf leafh ks st -> d_blocks (st_db st) = map k_num ks.
+Proof. intros ks st H. exact (proj1 (run_tables HT node zhf leafh ks st H)). Qed.
+End Tables.
+
 Print Assumptions C07_fault_atomic.
+Print Assumptions C07_same_history_same_tables.
+Print Assumptions C07_block_table_is_successful_blocks.
 Print Assumptions C07_processor_invariant.
 Print Assumptions C07_processor_failed_block_clean.
 Print Assumptions C07_processor_retry_is_clean.
